@@ -36,6 +36,8 @@ var c03Truthy = []TV{
 	{K: "string", S: "x"}, {K: "string", S: "0"}, {K: "string", S: " "}, {K: "string", S: "nil"},
 	{K: "*Item", M: map[string]TV{"title": tvS("t")}}, {K: "Item"}, {K: "slice"}, {K: "slice", L: []TV{tvI(0)}},
 	{K: "map"}, {K: "map", M: map[string]TV{"a": tvI(0)}}, {K: "[]int"}, {K: "time", I: 0}, {K: "struct{}"}, {K: "map[string]string"},
+	// non-nil pointers are truthy whatever they point to ("everything else truthy")
+	{K: "*bool", B: true}, {K: "*int"}, {K: "*int", I: 4}, {K: "*string"}, {K: "*string", S: "s"}, {K: "**int"},
 }
 
 var c03Undecided = []TV{{K: "nil*Item"}, {K: "nilslice"}, {K: "nilmap"}}
@@ -44,7 +46,7 @@ var c03Undecided = []TV{{K: "nil*Item"}, {K: "nilslice"}, {K: "nilmap"}}
 // stated rule but falsy in the engine (pinned by the repository's own unit test,
 // recorded as a known finding); keeping it out of the chain part keeps chain
 // verdicts about chain structure.
-var c03UniformOnly = []TV{{K: "string", S: "false"}, {K: "string", S: "true"}, {K: "string", S: "FALSE"}}
+var c03UniformOnly = []TV{{K: "string", S: "false"}, {K: "string", S: "true"}, {K: "string", S: "FALSE"}, {K: "*bool"}}
 
 var c03Placements = []string{"top", "nested", "for", "template", "ws", "comment", "adjacent", "beforefor", "table", "component", "slot", "layout"}
 
@@ -509,6 +511,12 @@ func (p *c03) execUniform(c c03Case) core.Obs {
 		return o
 	}
 	for _, pos := range sortedKeys(obs) {
+		if v.K == "*bool" && !v.B && strings.HasPrefix(pos, "!") {
+			// negating a pointer to false: the expression engine negates the pointee; the
+			// statement speaks about the truthiness of values, not about '!' on pointers
+			o.Cell("not-judged/negated-pointer-to-false")
+			continue
+		}
 		o.Cell("truth/" + pos)
 		if obs[pos] != want {
 			o.Fail(c, fmt.Sprintf("truth/%s/%s", pos, cls), "value %s read as %s: reference rule says truthy=%v, position %s treated it as truthy=%v\ntemplate: %s\noutput: %s", v, c.Path, want, pos, obs[pos], tpl, out)
